@@ -4,8 +4,12 @@
    TM.WireSpec; kernel numbering: TM.SpecKernelKeys (pinned).
    Model assumptions A1-A3 (little-endian, 24-byte input_event with fields at
    16/18/20, whole writes and min(24, available) reads) are stated at the top of
-   Wire.v and CHECKED on the platform by the `wire` harness engine. *)
+   Wire.v and CHECKED on the platform by the `wire` harness engine.
+   Whole-pipeline theorems (proofs in TM.Pipeline) are at the end:
+   C18_concatenated_batches_decode, C18_reader_returns_only_known_keys,
+   C18_virtual_keyboard_sees_mapper_outputs, C18_no_stuck_keys_through_the_codec. *)
 From TM Require LoopEndToEnd Loop LoopEnv LoadedWf MapperProv.
+From TM Require Pipeline MapperProps Serde.
 From TM Require EndToEnd Base Json RustOps Mapper Monitors MapperInv Convert LoaderCheck.
 From TM Require Import Wire WireSpec WireLemmas SpecKernelKeys.
 From TMGen Require Import KeyTable.
@@ -176,3 +180,99 @@ Example C18_example_kernel :
   /\ kernel_name "K102ND"%string = "KEY_102ND"%string
   /\ (100 <=? matched_count)%nat = true.
 Proof. vm_compute. repeat split. Qed.
+
+(* ---------- the whole pipeline (TM.Pipeline) ---------- *)
+
+(* The output descriptor carries MANY batches one after the other.  For EVERY
+   list of batches of known keys (any number, empty batches included): the
+   tool's reader run on the concatenation of the written buffers returns exactly
+   the events of the batches, in order, skipping every SYN_REPORT, and no index
+   panics. *)
+Theorem C18_concatenated_batches_decode :
+  forall batches : list (list event),
+    (forall b, In b batches -> known_batch b = true) ->
+    decode_stream (List.concat (map encode_batch batches)) = List.concat batches
+    /\ decode_run (List.concat (map encode_batch batches)) = (List.concat batches, Drained).
+Proof. exact Pipeline.decode_concat_batches. Qed.
+Print Assumptions C18_concatenated_batches_decode.
+
+(* On ANY byte stream (garbage, truncated) the reader only returns keys of the
+   key table - so what it feeds to the mapper always meets the guard "key events
+   of known keys" of C18_every_mapper_output_is_encodable /
+   C18_every_loop_write_is_encodable.  (`known_code` and LoaderCheck.known_key
+   are the same predicate: Pipeline.known_code_iff_key.) *)
+Theorem C18_reader_returns_only_known_keys :
+  forall (s : list N) (e : event),
+    In e (decode_stream s) ->
+    known_code (spec_key e) = true /\ LoaderCheck.known_key (spec_key e) = true.
+Proof.
+  intros s e H. split; [exact (Pipeline.decode_stream_keys_known s e H) | exact (Pipeline.decode_stream_known_keys s e H)].
+Qed.
+Print Assumptions C18_reader_returns_only_known_keys.
+
+(* Bytes in -> bytes out -> events: for EVERY layout file the loader accepts,
+   EVERY key classification and EVERY byte stream s arriving on the keyboard
+   descriptor (no hypothesis on s), a program that reads the virtual keyboard
+   with the same reader sees exactly the mapper's event sequence for the key
+   events of s.  `Pipeline.device_bytes_out is_action L s` =
+   concat (map encode_batch (filter non_nil (map fst (fst (Mapper.run is_action L
+   init (decode_stream s)))))) (C10_device_bytes_out_is); that these are the
+   bytes the event loop writes whatever the chunking is
+   C10_bytes_out_depend_only_on_events_read. *)
+Theorem C18_virtual_keyboard_sees_mapper_outputs :
+  forall (is_action : Base.key -> bool) (j : Json.json) (L : Mapper.layout) (s : list N),
+    Convert.load j = RustOps.Ok L ->
+    decode_stream (Pipeline.device_bytes_out is_action L s)
+    = List.concat (map fst (fst (Mapper.run is_action L Mapper.init (decode_stream s))))
+    /\ decode_run (Pipeline.device_bytes_out is_action L s)
+       = (List.concat (map fst (fst (Mapper.run is_action L Mapper.init (decode_stream s)))), Drained).
+Proof. exact Pipeline.virtual_keyboard_sees_mapper_outputs. Qed.
+Print Assumptions C18_virtual_keyboard_sees_mapper_outputs.
+
+(* C01 carried through the codec: if the key events of s leave no key
+   physically held, the events read back from the written bytes leave no key
+   held on the virtual keyboard. *)
+Theorem C18_no_stuck_keys_through_the_codec :
+  forall (is_action : Base.key -> bool) (j : Json.json) (L : Mapper.layout) (s : list N),
+    Convert.load j = RustOps.Ok L ->
+    MapperProps.phys_of (map Monitors.IEv (decode_stream s)) = [] ->
+    Monitors.apply_evs [] (decode_stream (Pipeline.device_bytes_out is_action L s)) = [].
+Proof. exact Pipeline.no_stuck_keys_at_the_device. Qed.
+Print Assumptions C18_no_stuck_keys_through_the_codec.
+
+(* Non-vacuity: three batches (one empty) written one after the other are read
+   back as their five events. *)
+Example C18_example_concatenated :
+  let batches := [[Pressed 30%N; Released 700%N]; []; [Pressed 42%N; Pressed 105%N; Released 30%N]] in
+  forallb known_batch batches = true
+  /\ List.length (List.concat (map encode_batch batches)) = 192%nat
+  /\ decode_run (List.concat (map encode_batch batches))
+     = ([Pressed 30%N; Released 700%N; Pressed 42%N; Pressed 105%N; Released 30%N], Drained).
+Proof. vm_compute. repeat split; reflexivity. Qed.
+
+(* Non-vacuity of the pipeline theorems: a CAPSLOCK-layer layout the loader
+   accepts; input bytes with SYN_REPORT and MSC_SCAN records, an auto-repeat
+   record, a record with an unknown code and a torn tail between and around four
+   key events; 144 bytes (two batches of two events, each with its SYN_REPORT)
+   come out, and read back they are the mapper's four events; nothing stays
+   held at the end, two keys are held after the first 96 input bytes. *)
+Example C18_example_pipeline :
+  let ia := fun k => negb (N.eqb k 42) in
+  let L := [Mapper.mkMapping [58%N] [] Mapper.RNormal []; Mapper.mkMapping [58%N; 36%N] [42%N; 105%N] Mapper.RNormal []] in
+  let s := raw_stream
+             [mk_raw 5 6 1 58 1; mk_raw 5 6 0 0 0; mk_raw 5 7 4 4 458788; mk_raw 5 7 1 36 1; mk_raw 5 7 0 0 0;
+              mk_raw 5 8 1 36 2; mk_raw 5 9 1 58 0; mk_raw 5 9 1 600 1; mk_raw 6 0 1 36 0]
+           ++ [7; 7; 7]%N in
+  Convert.load (Serde.to_json L) = RustOps.Ok L
+  /\ decode_stream s = [Pressed 58%N; Pressed 36%N; Released 58%N; Released 36%N]
+  /\ map fst (fst (Mapper.run ia L Mapper.init (decode_stream s)))
+     = [[]; [Pressed 42%N; Pressed 105%N]; [Released 105%N; Released 42%N]; []]
+  /\ Pipeline.device_bytes_out ia L s
+     = encode_batch [Pressed 42%N; Pressed 105%N] ++ encode_batch [Released 105%N; Released 42%N]
+  /\ List.length (Pipeline.device_bytes_out ia L s) = 144%nat
+  /\ decode_stream (Pipeline.device_bytes_out ia L s)
+     = [Pressed 42%N; Pressed 105%N; Released 105%N; Released 42%N]
+  /\ MapperProps.phys_of (map Monitors.IEv (decode_stream s)) = []
+  /\ Monitors.apply_evs [] (decode_stream (Pipeline.device_bytes_out ia L s)) = []
+  /\ Monitors.apply_evs [] (decode_stream (Pipeline.device_bytes_out ia L (firstn 96 s))) = [42%N; 105%N].
+Proof. vm_compute. repeat split; reflexivity. Qed.
